@@ -169,6 +169,38 @@ def histories(ctx: Ctx, n):
             ctx.sample({"runs": [r[1] for r in runs], "plan": [[p for p in pre] for pre, _k in plan][:4], "cells_fingerprinted": len(after)})
 
 
+def ligand_histories(ctx: Ctx, n):
+    """the ligand stage under EVERY force field as the history of a ligand run: run A = (complex, ff_a, --ligand) alone,
+    then after one run of the same complex under each other force field; module-state fingerprint around it"""
+    rng = ctx.rng
+    ffs = ["AMBER", "PARSE", "CHARMM", "TYL06", "SWANSON", "PEOEPB"]
+    allowed_writes = {c for c, _f in genmodulestate.analyse()[1]}
+    for hi in range(n):
+        text, mol2, _lr, _ln, _f = c16.gen_complex(rng)
+        a = ffs[(hi + ctx.seed) % len(ffs)]
+        mk = lambda ff: (text, [f"--ff={ff}", "--whitespace", "--ligand=@DIR@/lig.mol2"], {"lig.mol2": mol2})
+        before = snapshot()
+        base = do_run(mk(a))
+        ctx.evaluations += 1
+        for g in ffs:
+            if g == a:
+                continue
+            do_run(mk(g))
+            again = do_run(mk(a))
+            ctx.evaluations += 2
+            ctx.count("ligand-histories", f"{g} then {a}")
+            ctx.distinct.add(("ligand-history", g, a))
+            if again != base:
+                ctx.violate({"kind": "history-dependent", "history": "ok(ligand run under another force field)", "prefix_ff": g}, f"--ff={a} --ligand gives different PQR bytes / status after a --ff={g} --ligand run in the same process ({base[0]} vs {again[0]})",
+                            {"runs": [list(mk(g)[:2]), list(mk(a)[:2])], "mol2": mol2, "prefix": [["ok", 0]], "k": 1})
+                break
+        after = snapshot()
+        changed = sorted(k for k in after if before.get(k) != after[k]) + sorted(k for k in before if k not in after)
+        unexpected = [c for c in changed if not any(c.replace(".__init__", "") == w.replace(".__init__", "") for w in allowed_writes) and not c.endswith(("warn_count",))]
+        if unexpected:
+            ctx.disagree("module-state inventory (AST) vs dynamic fingerprint (ligand runs)", {"changed": unexpected[:10]}, f"write set {sorted(allowed_writes)}", f"changed during runs: {unexpected[:10]}")
+
+
 SCRIPT = r"""
 import sys, logging
 from pdb2pqr.main import build_main_parser, main_driver
@@ -252,9 +284,10 @@ def run(ctx: Ctx):
     G.quiet()
     ctx.extra["rule"] = (
         "per round: four runs (three generated peptide cases with random force field/options and a peptide+ligand+hetero complex) and three failing runs; every run repeated after [ok], [fail] and [ok, fail, ok] prefixes; "
-        "module-state fingerprint before/after each round; the same run in fresh processes under PYTHONHASHSEED 0/1/2/random; a case is (history shape, option names); distinct counts distinct tuples"
+        "ligand complexes: the same --ligand run alone and after a --ligand run under each of the other five force fields; module-state fingerprint before/after each round; the same run in fresh processes under PYTHONHASHSEED 0/1/2/random; a case is (history shape, option names); distinct counts distinct tuples"
     )
     histories(ctx, ctx.scale(2, 40))
+    ligand_histories(ctx, ctx.scale(2, 36))
     hash_seeds(ctx, ctx.scale(6, 90))
 
 
